@@ -300,6 +300,14 @@ fn run_worker(id: &str, oracle_id: &str, seed: u64, worker: u64, cases: u32, sto
             }
         }
         if let Some(v) = mine.first() {
+            if counting.get() {
+                // keep the failing case before anything else runs: if the tested code has corrupted this process (a use-after-free
+                // in the library is a plausible way to break a property) the shrinking runs below may never finish
+                let dir = verif_dir().join("pending").join(&prof_id);
+                let _ = std::fs::create_dir_all(&dir);
+                let rf = ReplayFile { property: v.prop.clone(), clause: v.clause.clone(), detail: v.detail.clone(), signature: signature(&case, v), case: case.clone(), trace: out.trace.clone(), seed, program: case.pretty() };
+                let _ = std::fs::write(dir.join(format!("unshrunk-{}.json", worker)), serde_json::to_string(&rf).unwrap_or_default());
+            }
             counting.set(false);
             stop.store(true, Ordering::Relaxed);
             return Err(TestCaseError::fail(format!("{}|{}", v.prop, v.clause)));
@@ -592,6 +600,8 @@ fn cmd_check(id: &str, tier: &str, cases_override: Option<u32>, workers: usize, 
         }
     }
     // 2. generated search
+    let pending = home.join("pending").join(id);
+    let _ = std::fs::remove_dir_all(&pending);
     let cases = cases_override.unwrap_or(match tier {
         "thorough" => 1_500_000,
         _ => 40_000,
@@ -675,6 +685,8 @@ fn cmd_check(id: &str, tier: &str, cases_override: Option<u32>, workers: usize, 
             println!("KNOWN-FINDING: property={} {}", id, k.what);
         }
     }
+    // (the shrinking runs are over: the unshrunk copies kept in case of a crash are not needed any more)
+    let _ = std::fs::remove_dir_all(&pending);
     let wall = t0.elapsed().as_secs_f64();
     // 4. evidence
     let distinct = agg.hashes.len() as u64;
@@ -742,6 +754,48 @@ fn cmd_check(id: &str, tier: &str, cases_override: Option<u32>, workers: usize, 
     0
 }
 
+/// Runs the search in a child process. The tested library runs in-process with the harness, and a change to it that
+/// corrupts memory (a realistic way of breaking a property) can take the whole process down: the verdict must survive that.
+fn supervise_check(id: &str, args: &[String]) -> i32 {
+    let exe = std::env::current_exe().expect("current_exe");
+    let status = std::process::Command::new(&exe).args(&args[1..]).arg("--in-process").status();
+    let status = match status {
+        Ok(s) => s,
+        Err(e) => {
+            println!("INCONCLUSIVE: could not start the search process: {}", e);
+            return 2;
+        }
+    };
+    if let Some(code) = status.code() {
+        return code;
+    }
+    // killed by a signal. A worker that had already seen a violation left its failing case behind: decide on that,
+    // each case in a process of its own
+    let home = verif_dir();
+    let pending = home.join("pending").join(id);
+    let mut files: Vec<_> = std::fs::read_dir(&pending).map(|rd| rd.filter_map(|e| e.ok()).map(|e| e.path()).collect()).unwrap_or_default();
+    files.sort();
+    for f in files {
+        let reproduced = (0..3).any(|_| std::process::Command::new(&exe).arg("replay").arg(&f).arg("--quiet").stdout(std::process::Stdio::null()).status().map(|s| s.code() == Some(1)).unwrap_or(false));
+        if reproduced {
+            let body = std::fs::read_to_string(&f).unwrap_or_default();
+            let mut h = std::collections::hash_map::DefaultHasher::new();
+            body.hash(&mut h);
+            let rdir = home.join("replays").join(id);
+            let _ = std::fs::create_dir_all(&rdir);
+            let keep = rdir.join(format!("{}-unshrunk-{:016x}.json", id, h.finish()));
+            let _ = std::fs::write(&keep, body);
+            let _ = std::fs::remove_dir_all(&pending);
+            println!("note: the search process died ({}) after this violation had been found; the stored case is not shrunk", status);
+            println!("VIOLATION property={} replay={}", id, keep.display());
+            return 1;
+        }
+    }
+    let _ = std::fs::remove_dir_all(&pending);
+    println!("INCONCLUSIVE: the search process for {} died ({}) before a violation of {} was recorded", id, status, id);
+    2
+}
+
 fn cmd_gen(id: &str, n: usize) {
     let prof = profiles::profile(id);
     let strat = gen::case_strategy(&prof);
@@ -768,7 +822,11 @@ fn main() {
             }
             let tier = get("--tier").unwrap_or_else(|| std::env::var("VERIF_TIER").unwrap_or_else(|_| "quick".into()));
             let workers = get("--workers").and_then(|s| s.parse().ok()).unwrap_or(16);
-            cmd_check(&id, &tier, get("--cases").and_then(|s| s.parse().ok()), workers, has("--strict-harness"), get("--oracle"))
+            if has("--in-process") {
+                cmd_check(&id, &tier, get("--cases").and_then(|s| s.parse().ok()), workers, has("--strict-harness"), get("--oracle"))
+            } else {
+                supervise_check(&id, &args)
+            }
         }
         Some("replay") => cmd_replay(args.get(2).map(|s| s.as_str()).unwrap_or(""), has("--quiet")),
         Some("focus") => {
